@@ -6,7 +6,7 @@ O = '/tmp/catches'
 rows = {}
 for l in open(O + '/list'):
     name, prop, path = l.split()
-    txt = open(f'{O}/{name}.txt').read() if os.path.exists(f'{O}/{name}.txt') else ''
+    txt = open(f'{O}/{name}.txt', errors='replace').read() if os.path.exists(f'{O}/{name}.txt') else ''
     rules = []
     for m in re.finditer(r'^  ([A-Z]{1,2}\d+[a-z]?)(?:-[a-z]+)? ', txt, re.M):
         if m.group(1) not in rules:
